@@ -2,30 +2,42 @@
 DBIterator under the good configuration: every cursor-operation sequence yields what the
 specification's cursor over the snapshot yields.
 -/
-import NoKVModel.Iter.StreamLemmas
+import NoKVModel.Iter.ConcatLemmas
 
 namespace NoKV.Iter
 
 /-- well-formed LSM state: every source is `compareKeys`-sorted (hence holds every internal key
-at most once), SST blocks are non-empty, versions fit in 64 bits -/
+at most once), SST blocks are non-empty, the tables of the level are ascending and disjoint,
+versions fit in 64 bits -/
 structure DB.WF (db : DB) : Prop where
   mem : Sorted (dirLt false) db.mem
   imms : ∀ m ∈ db.imms, Sorted (dirLt false) m
   l0 : ∀ t ∈ db.l0, Sorted (dirLt false) t.flatten ∧ ∀ b ∈ t, b ≠ []
+  lvl : LevelOK db.lvl
   ver : ∀ s ∈ db.byRecency, ∀ e ∈ s, e.ver ≤ maxU64
 
 theorem DB.WF.allSorted {db : DB} (h : db.WF) : AllSorted (dirLt false) db.byRecency := by
   intro s hs
   simp only [DB.byRecency, List.mem_append, List.mem_cons, List.not_mem_nil, or_false, List.mem_reverse,
     List.mem_map] at hs
-  rcases hs with (hs | hs) | ⟨t, ht, rfl⟩
+  rcases hs with ((hs | hs) | ⟨t, ht, rfl⟩) | hs
   · rw [hs]; exact h.mem
   · exact h.imms s hs
   · exact (h.l0 t ht).1
+  · split at hs
+    · cases hs
+    · simp at hs; rw [hs]; exact h.lvl.sorted
 
-theorem lsmSources_items (c : IterCfg) (hi : c.immOrder = .newestFirst) (db : DB) :
-    (lsmSources c db).map List.flatten = db.byRecency := by
-  simp [lsmSources, hi, DB.byRecency, List.map_map, Function.comp_def]
+/-- all LSM sources of an iterator: memtables and level-0 tables, then the level's concat iterator -/
+def lsmAll (c : IterCfg) (db : DB) (w : Bool) : List Source :=
+  (lsmSources c db).map (fun s => ⟨.compareKeys, s, w, none⟩) ++ levelSource db w
+
+theorem lsmAll_items (c : IterCfg) (hi : c.immOrder = .newestFirst) (db : DB) (w : Bool) :
+    (lsmAll c db w).map Source.items = db.byRecency := by
+  unfold lsmAll levelSource
+  by_cases hl : db.lvl.isEmpty = true
+  · simp [lsmSources, hi, DB.byRecency, List.map_map, Function.comp_def, Source.items, hl]
+  · simp [lsmSources, hi, DB.byRecency, List.map_map, Function.comp_def, Source.items, hl]
 
 theorem lsmSources_blocks (c : IterCfg) (hi : c.immOrder = .newestFirst) (db : DB) (h : db.WF) :
     ∀ bs ∈ lsmSources c db, Sorted (dirLt false) bs.flatten ∧ ∀ b ∈ bs, b ≠ [] ∨ bs = [b] := by
@@ -50,51 +62,91 @@ theorem blockSeek_source (t : Ent) (bs : List (List Ent)) (hs : Sorted (dirLt fa
     · exact h
     · exact absurd ⟨b, h⟩ h1
 
+/-- every LSM source: flag, forward and reverse `Seek` as `dropWhile` of its entries -/
+theorem lsmAll_seek (c : IterCfg) (hi : c.immOrder = .newestFirst) (hft : c.sstSeekFallsThrough = true)
+    (hcc : c.ConcatGood) (db : DB) (h : db.WF) (w : Bool) (t : Ent) :
+    ∀ s ∈ lsmAll c db w, s.wrapped = w ∧
+      s.seek c false t = s.items.dropWhile (fun e => ikLt e t) ∧
+      s.seek c true t = s.items.reverse.dropWhile (fun e => ikLt t e) := by
+  intro s hs
+  unfold lsmAll levelSource at hs
+  rcases List.mem_append.mp hs with hs | hs
+  · obtain ⟨bs, hbs, rfl⟩ := List.mem_map.mp hs
+    have := lsmSources_blocks c hi db h bs hbs
+    refine ⟨rfl, ?_, ?_⟩
+    · simp [Source.seek, hft, blockSeek_source t bs this.1 this.2, Source.items]
+    · simp [Source.seek, srcSeek, srcLt, Source.items]
+  · split at hs
+    · cases hs
+    · simp at hs
+      subst hs
+      refine ⟨rfl, ?_, ?_⟩
+      · simp [Source.seek, Source.items, concatSeek_fwd c hcc hft t db.lvl h.lvl]
+      · simp [Source.seek, Source.items, concatSeek_rev c hcc t db.lvl h.lvl]
+
+theorem dbSources_eq (c : IterCfg) (db : DB) : dbSources c db = lsmAll c db false := rfl
+
+/-! ### merged streams over the LSM sources -/
+
+def wrapF (c : IterCfg) (readTs : Nat) (w : Bool) (l : List Ent) : List Ent :=
+  if w then l.filter (fun e => !c.wrapReadTsOp.nat e.ver readTs) else l
+
+theorem lsm_mergedRewind (c : IterCfg) (hi : c.immOrder = .newestFirst) (hft : c.sstSeekFallsThrough = true)
+    (hcc : c.ConcatGood) (db : DB) (h : db.WF) (w : Bool) (rts : Nat) (rev : Bool) :
+    mergedRewind c rev rts (lsmAll c db w) =
+      mergeTree c.eqKeyAdvances rev (db.byRecency.map fun l => wrapF c rts w (if rev then l.reverse else l)) := by
+  unfold mergedRewind
+  rw [← lsmAll_items c hi db w, List.map_map]
+  congr 1
+  apply List.map_congr_left
+  intro s hs
+  have := (lsmAll_seek c hi hft hcc db h w ⟨[], 0, [], false, false⟩ s hs).1
+  simp [Source.wrap, wrapF, srcRewind, this]
+
+theorem lsm_mergedSeek (c : IterCfg) (hi : c.immOrder = .newestFirst) (hft : c.sstSeekFallsThrough = true)
+    (hcc : c.ConcatGood) (db : DB) (h : db.WF) (w : Bool) (rts : Nat) (rev : Bool) (t : Ent) :
+    mergedSeek c rev rts t (lsmAll c db w) =
+      mergeTree c.eqKeyAdvances rev (db.byRecency.map fun l => wrapF c rts w
+        (if rev then l.reverse.dropWhile (fun e => ikLt t e) else l.dropWhile (fun e => ikLt e t))) := by
+  unfold mergedSeek
+  rw [← lsmAll_items c hi db w, List.map_map]
+  congr 1
+  apply List.map_congr_left
+  intro s hs
+  have := lsmAll_seek c hi hft hcc db h w t s hs
+  cases rev <;> simp [Source.wrap, wrapF, this.1, this.2.1, this.2.2]
+
 /-! ### the merged stream of a DB iterator -/
 
 theorem db_mergedRewind (c : IterCfg) (hc : c.DbGood) (db : DB) (h : db.WF) (rev : Bool) :
     mergedRewind c rev 0 (dbSources c db) = if rev then (dbSnapshot db).reverse else dbSnapshot db := by
-  obtain ⟨_, hadv, himm, _, _, _⟩ := hc
-  unfold mergedRewind dbSources dbSnapshot
-  rw [hadv, List.map_map]
-  have hitems := lsmSources_items c himm db
+  obtain ⟨_, hadv, himm, _, _, hft, hcc⟩ := hc
+  rw [dbSources_eq, lsm_mergedRewind c himm hft hcc db h, hadv]
+  unfold dbSnapshot
   cases rev
-  · have : (lsmSources c db).map ((fun s : Source => s.wrap c 0 (srcRewind false s.items)) ∘ fun s => ⟨.compareKeys, s, false⟩)
-        = db.byRecency := by
-      rw [← hitems]; apply List.map_congr_left; intro s _; simp [Source.wrap, srcRewind, Source.items]
-    rw [this]; simpa using mergeTree_eq_snapshot _ h.allSorted
-  · have : (lsmSources c db).map ((fun s : Source => s.wrap c 0 (srcRewind true s.items)) ∘ fun s => ⟨.compareKeys, s, false⟩)
-        = db.byRecency.map List.reverse := by
-      rw [← hitems, List.map_map]; apply List.map_congr_left; intro s _; simp [Source.wrap, srcRewind, Source.items]
-    rw [this]; simpa using mergeTree_rev_eq_snapshot _ h.allSorted
+  · simpa [wrapF] using mergeTree_eq_snapshot _ h.allSorted
+  · simpa [wrapF] using mergeTree_rev_eq_snapshot _ h.allSorted
 
 theorem db_mergedSeek_fwd (c : IterCfg) (hc : c.DbGood) (db : DB) (h : db.WF) (t : Ent) :
     mergedSeek c false 0 t (dbSources c db) = (dbSnapshot db).dropWhile (fun e => ikLt e t) := by
-  obtain ⟨_, hadv, himm, _, _, hft⟩ := hc
-  unfold mergedSeek dbSources dbSnapshot
-  rw [hadv, List.map_map]
-  have hitems := lsmSources_items c himm db
-  have : (lsmSources c db).map ((fun s : Source => s.wrap c 0 (s.seek c false t)) ∘ fun s => ⟨.compareKeys, s, false⟩)
-      = db.byRecency.map (List.dropWhile (fun e => ikLt e t)) := by
-    rw [← hitems, List.map_map]; apply List.map_congr_left; intro s hs
-    have := lsmSources_blocks c himm db h s hs
-    simp [Source.wrap, Source.seek, hft, blockSeek_source t s this.1 this.2]
-  rw [this, mergeTree_dropWhile false (anti_ikLt_target t) _ h.allSorted, mergeTree_eq_snapshot _ h.allSorted]
+  obtain ⟨_, hadv, himm, _, _, hft, hcc⟩ := hc
+  rw [dbSources_eq, lsm_mergedSeek c himm hft hcc db h, hadv]
+  unfold dbSnapshot
+  have := mergeTree_dropWhile false (anti_ikLt_target t) _ h.allSorted
+  rw [mergeTree_eq_snapshot _ h.allSorted] at this
+  simpa [wrapF] using this
 
 theorem db_mergedSeek_rev (c : IterCfg) (hc : c.DbGood) (db : DB) (h : db.WF) (t : Ent) :
     mergedSeek c true 0 t (dbSources c db) = (dbSnapshot db).reverse.dropWhile (fun e => ikLt t e) := by
-  obtain ⟨_, hadv, himm, _, _, _⟩ := hc
-  unfold mergedSeek dbSources dbSnapshot
-  rw [hadv, List.map_map]
-  have hitems := lsmSources_items c himm db
-  have : (lsmSources c db).map ((fun s : Source => s.wrap c 0 (s.seek c true t)) ∘ fun s => ⟨.compareKeys, s, false⟩)
-      = (db.byRecency.map List.reverse).map (List.dropWhile (fun e => ikLt t e)) := by
-    rw [← hitems, List.map_map, List.map_map]; apply List.map_congr_left; intro s _
-    simp [Source.wrap, Source.seek, srcSeek, srcLt, Source.items]
+  obtain ⟨_, hadv, himm, _, _, hft, hcc⟩ := hc
+  rw [dbSources_eq, lsm_mergedSeek c himm hft hcc db h, hadv]
+  unfold dbSnapshot
   have hs' : AllSorted (dirLt true) (db.byRecency.map List.reverse) := by
     intro s hs1
     obtain ⟨u, hu, rfl⟩ := List.mem_map.mp hs1
     exact sorted_reverse false (h.allSorted u hu)
-  rw [this, mergeTree_dropWhile true (anti_ikLt_target_rev t) _ hs', mergeTree_rev_eq_snapshot _ h.allSorted]
+  have := mergeTree_dropWhile true (anti_ikLt_target_rev t) _ hs'
+  rw [mergeTree_rev_eq_snapshot _ h.allSorted, List.map_map] at this
+  simpa [wrapF, Function.comp_def] using this
 
 end NoKV.Iter
